@@ -69,6 +69,7 @@ class SwitchRun:
         self.pos = 0
         self.keys = {}      # id -> (switch name, callback, state, ms_real)
         self.gen = {}       # schedule id -> registrations so far (every registration gets a fresh id)
+        self.offset = 0.0   # seconds already advanced into the current unit
 
     def units_now(self):
         x = (self.m.clock.get_time() - self.t0) * 1000.0 / self.U
@@ -79,7 +80,7 @@ class SwitchRun:
         if tag[0] == 'deliver':
             self.ev.append({'op': 'deliver', 'sw': tag[1], 'state': tag[2]})
         else:
-            self.ev.append({'op': 'tfire', 'id': 'e_held', 't': self.units_now()})
+            self.ev.append({'op': 'tfire', 'id': 'e_held', 't': self.units_now(), 'rm': ''})
 
     def obs(self):
         return ({s: int(self.m.switches[s].state) for s in SWS}, {s: int(self.m.switches[s].hw_state) for s in SWS})
@@ -95,7 +96,19 @@ class SwitchRun:
     def mk_cb(self, hid, timed, rid):
         def cb():
             if timed:
-                self.ev.append({'op': 'tfire', 'id': rid, 't': self.units_now()})
+                # the schedule may let this callback remove another handler on the spot
+                rm = ''
+                for i in range(self.pos, len(self.sched)):
+                    s = self.sched[i]
+                    if i not in self.consumed and s['op'] == 'tfire' and s['id'] == hid:
+                        self.consumed.add(i)
+                        rm = s.get('rm', '')
+                        break
+                rmid = self.keys[rm][4] if rm in self.keys else ''
+                self.ev.append({'op': 'tfire', 'id': rid, 't': self.units_now(), 'rm': rmid})
+                if rmid:
+                    sw, cb2, state, ms, _ = self.keys.pop(rm)
+                    self.sc.remove_switch_handler(sw, cb2, state=state, ms=ms)
                 return
             self.ev.append({'op': 'call', 'id': rid})
             idx = None
@@ -165,8 +178,17 @@ class SwitchRun:
                     continue
                 if s['op'] == 'tick':
                     self.ev.append({'op': 'tick'})
-                    h.advance_time_and_run(self.U * (1 + EPS) / 1000.0)
+                    h.advance_time_and_run(self.U * (1 + EPS) / 1000.0 - self.offset)
+                    self.offset = 0.0
                     self.sync()
+                    continue
+                if (s['op'] == 'add' and s.get('ms', 0) > 0 and i % 2 == 0 and i + 1 < len(self.sched)
+                        and self.sched[i + 1]['op'] == 'tick' and not self.offset):
+                    # a timed handler registered 0.4 ms before the end of this unit (i.e. possibly that close to its
+                    # original deadline); the tick that follows completes the unit
+                    self.offset = self.U / 1000.0 - 0.0004
+                    h.advance_time_and_run(self.offset)
+                    self.do(s)
                     continue
                 self.do(s)
                 h.advance_time_and_run(0)
@@ -213,6 +235,13 @@ def handmade(u):
          {'op': 'remove', 'id': 'h2', 'nested': True}, T, R('s_no', 0), R('s_no', 1), T],
         [A('h1', 's_no', 1, 1), A('h2', 's_no', 1, 2), R('s_no', 1), T, {'op': 'remove', 'id': 'h2'}, T, T],
         [R('s_nc', 1, True), R('s_nc', 1, True), R('s_nc', 0), T, R('s_nc', 0, True), T],
+        # two hold-time handlers due at the same instant: the first one's callback removes the second, which must not fire
+        [A('h1', 's_no', 1, 2), A('h2', 's_no', 1, 2), R('s_no', 1), T, T, {'op': 'tfire', 'id': 'h1', 'rm': 'h2'}, T, T],
+        [A('h2', 's_no', 1, 1), A('h1', 's_no', 1, 1), A('h3', 's_no', 1, 2), R('s_no', 1), T,
+         {'op': 'tfire', 'id': 'h2', 'rm': 'h1'}, T, T],
+        # registered 0.4 ms before its original deadline (the schedule position makes this add a late one)
+        [R('s_no', 1), T, T, T, A('h1', 's_no', 1, 4), T, T, T],
+        [R('s_nc', 0), T, A('h1', 's_nc', 1, 2), T, T, T],
     ]
 
 
